@@ -426,17 +426,17 @@ Definition access_ok (nm : names) (d : discipline) (st fld : id) (k : rw) (held 
   | None => False
   end.
 
-Theorem check_guarded_sound_thm : forall nm fs d, check_guarded nm fs d = [] ->
+Lemma check_with_access : forall nm fs d m cs, check_with nm fs d m cs = [] ->
   forall f st fld k held b p H,
     In (FAccess f st fld k held b p) fs ->
     path fs f H ->
-    exempt (ctor_set nm fs d) f b = false ->
+    exempt cs f b = false ->
     access_ok nm d st fld k (held ++ H).
 Proof.
-  intros nm fs d Hc f st fld k held b p H Hin Hp Hex.
-  unfold check_guarded in Hc. apply check_with_nil in Hc. destruct Hc as (Hv & Hok & _).
+  intros nm fs d m cs Hc f st fld k held b p H Hin Hp Hex.
+  apply check_with_nil in Hc. destruct Hc as (Hv & Hok & _).
   destruct (eh_path _ _ Hok _ _ Hp) as (hf & Hf & Hsub).
-  pose proof (flat_map_nil _ _ _ _ _ Hv Hin) as Hx. cbn in Hx. rewrite Hf, Hex in Hx.
+  pose proof (flat_map_nil _ _ _ _ _ Hv Hin) as Hx. unfold viol_of_fact in Hx. rewrite Hf, Hex in Hx.
   unfold access_ok. destruct (class_of nm d st fld) as [[l| |w|w]|]; try discriminate; try exact I.
   - destruct (holds (held ++ hf) (lock_id nm l) (need_of k)) eqn:Hh; [|discriminate].
     rewrite holds_app in *. apply orb_true_iff in Hh. apply orb_true_iff.
@@ -444,21 +444,39 @@ Proof.
   - destruct k; [reflexivity | discriminate].
 Qed.
 
+Theorem check_guarded_sound_thm : forall nm fs d, check_guarded nm fs d = [] ->
+  forall f st fld k held b p H,
+    In (FAccess f st fld k held b p) fs ->
+    path fs f H ->
+    exempt (ctor_set nm fs d) f b = false ->
+    access_ok nm d st fld k (held ++ H).
+Proof. intros nm fs d Hc. exact (check_with_access _ _ _ _ _ Hc). Qed.
+
 (** no lock operation the translator could not pair, no unlisted close site *)
-Theorem check_guarded_balanced_thm : forall nm fs d, check_guarded nm fs d = [] ->
+Lemma check_with_balanced : forall nm fs d m cs, check_with nm fs d m cs = [] ->
   forall f l p, ~ In (FUnbalanced f l p) fs.
 Proof.
-  intros nm fs d Hc f l p Hin. unfold check_guarded in Hc. apply check_with_nil in Hc.
-  destruct Hc as (Hv & _). pose proof (flat_map_nil _ _ _ _ _ Hv Hin) as Hx. cbn in Hx. discriminate.
+  intros nm fs d m cs Hc f l p Hin. apply check_with_nil in Hc.
+  destruct Hc as (Hv & _). pose proof (flat_map_nil _ _ _ _ _ Hv Hin) as Hx.
+  unfold viol_of_fact in Hx. discriminate.
+Qed.
+
+Theorem check_guarded_balanced_thm : forall nm fs d, check_guarded nm fs d = [] ->
+  forall f l p, ~ In (FUnbalanced f l p) fs.
+Proof. intros nm fs d Hc. exact (check_with_balanced _ _ _ _ _ Hc). Qed.
+
+Lemma check_with_closes : forall nm fs d m cs, check_with nm fs d m cs = [] ->
+  forall f st fld h p, In (FChan f ChClose st fld h p) fs -> close_listed nm fs d f st fld = true.
+Proof.
+  intros nm fs d m cs Hc f st fld h p Hin. apply check_with_nil in Hc.
+  destruct Hc as (Hv & _). pose proof (flat_map_nil _ _ _ _ _ Hv Hin) as Hx.
+  unfold viol_of_fact in Hx.
+  destruct (close_listed nm fs d f st fld); [reflexivity | discriminate].
 Qed.
 
 Theorem check_guarded_closes_thm : forall nm fs d, check_guarded nm fs d = [] ->
   forall f st fld h p, In (FChan f ChClose st fld h p) fs -> close_listed nm fs d f st fld = true.
-Proof.
-  intros nm fs d Hc f st fld h p Hin. unfold check_guarded in Hc. apply check_with_nil in Hc.
-  destruct Hc as (Hv & _). pose proof (flat_map_nil _ _ _ _ _ Hv Hin) as Hx. cbn in Hx.
-  destruct (close_listed nm fs d f st fld); [reflexivity | discriminate].
-Qed.
+Proof. intros nm fs d Hc. exact (check_with_closes _ _ _ _ _ Hc). Qed.
 
 (** the construction-phase set is what it says: declared, or never a root and
     every caller passes a private receiver (or is itself in the set, passing its own) *)
@@ -469,14 +487,14 @@ Proof.
   - intros H. exists x. split; [exact H | apply N.eqb_refl].
 Qed.
 
-Theorem ctor_set_sound_thm : forall nm fs d, check_guarded nm fs d = [] ->
-  forall f, In f (ctor_set nm fs d) ->
+Lemma check_with_ctor : forall nm fs d m cs, check_with nm fs d m cs = [] ->
+  forall f, In f cs ->
     In f (declared_ctors nm d) \/
     (~ In f (root_names fs) /\
      forall c h b p, In (FCall c f h b p) fs ->
-       b = BLocal \/ (b = BRecv /\ In c (ctor_set nm fs d))).
+       b = BLocal \/ (b = BRecv /\ In c cs)).
 Proof.
-  intros nm fs d Hc f Hf. unfold check_guarded in Hc. apply check_with_nil in Hc.
+  intros nm fs d m cs Hc f Hf. apply check_with_nil in Hc.
   destruct Hc as (_ & _ & Hk). unfold ctor_ok in Hk. rewrite forallb_forall in Hk.
   specialize (Hk _ Hf). unfold ctor_fn_ok in Hk. apply orb_true_iff in Hk.
   destruct Hk as [Hk|Hk]; [left; apply mem_id_In; exact Hk | right].
@@ -486,9 +504,17 @@ Proof.
   - intros c h b p Hin. rewrite forallb_forall in Hall.
     assert (He : In (c, f, h, b) (call_edges fs)).
     { unfold call_edges. apply in_flat_map. exists (FCall c f h b p). split; [exact Hin | left; reflexivity]. }
-    specialize (Hall _ He). cbn in Hall. rewrite N.eqb_refl in Hall.
+    specialize (Hall _ He). cbv beta iota in Hall. rewrite N.eqb_refl in Hall.
     destruct b; [left; reflexivity | right; split; [reflexivity | apply mem_id_In; exact Hall] | discriminate].
 Qed.
+
+Theorem ctor_set_sound_thm : forall nm fs d, check_guarded nm fs d = [] ->
+  forall f, In f (ctor_set nm fs d) ->
+    In f (declared_ctors nm d) \/
+    (~ In f (root_names fs) /\
+     forall c h b p, In (FCall c f h b p) fs ->
+       b = BLocal \/ (b = BRecv /\ In c (ctor_set nm fs d))).
+Proof. intros nm fs d Hc. exact (check_with_ctor _ _ _ _ _ Hc). Qed.
 
 (** ** lock order *)
 Lemma mem_lock_In : forall l ls, mem_lock l ls = true <-> In l ls.
